@@ -6,6 +6,7 @@
 //!        | final amt= … | err BadHmac        real: public `peel_payment_onion` with that hop's node key
 //!   failbuild <ss> <code> <data> / failwrap <ss> <pkt> / faildecode <n> <ss>* <pkt>
 //!        real: build_failure_packet, HTLCFailReason::get_encrypted_failure_packet, decode_onion_failure (hooks)
+//!   failbuildx / failwrapx / faildecodex / fulfilwrapx / fulfildecodex: the same with AttributionData (hold times)
 //! ECDH and ephemeral-key blinding are TRUSTED: the ephemeral keys stay on the Rust side, the
 //! model receives the per-hop shared secrets.
 use bitcoin::hashes::hmac::{Hmac, HmacEngine};
@@ -261,6 +262,33 @@ fn main() {
 			*rec.classes.entry("real-only:corrupt-version-or-key".into()).or_insert(0) += 1;
 		}
 
+		// ---- fulfil: attribution data built by the last hop, extended by every hop on the way back; the
+		//      sender must read exactly the hops' hold times (real code only; not modelled) -----------------
+		{
+			let holds: Vec<u32> = (0..n).map(|_| match rng.below(3) { 0 => 0, 1 => rng.below(1000) as u32, _ => rng.next() as u32 }).collect();
+			let mut attr = None;
+			let model_too = rng.chance(1, 3);
+			let enc = |a: &Option<lightning::ln::onion_utils::AttributionData>| { use lightning::util::ser::Writeable; a.as_ref().map(|x| hex(&x.encode())).unwrap_or("none".into()) };
+			let hs = |v: &Vec<u32>| if v.is_empty() { "none".to_string() } else { v.iter().map(|x| x.to_string()).collect::<Vec<_>>().join(",") };
+			for j in (0..n).rev() {
+				let before = enc(&attr);
+				attr = Some(vh::process_fulfill_attribution_data(attr, &ss[j], holds[j]));
+				if model_too { rec.case(&format!("fulfilwrapx {} {} {}", hex(&ss[j]), before, holds[j]), &enc(&attr), "attr:fulfil-wrap", true); }
+			}
+			let got = vh::decode_fulfill_attribution_data(&ctx.secp, &NullLogger, &c.path, &c.session, attr.clone().unwrap());
+			if model_too { let mut f = format!("fulfildecodex {}", n); for x in &ss { f.push_str(&format!(" {}", hex(x))); } rec.case(&format!("{} {}", f, enc(&attr)), &format!("holds={}", hs(&got)), "attr:fulfil-decode", true); }
+			if got[..] != holds[..n.min(20)] { rec.oracle_fail(format!("fulfil hold times of route {} ({} hops): got {:?} expected {:?}", r, n, got, holds)); }
+			*rec.classes.entry("real-only:fulfil-hold-times".into()).or_insert(0) += 1;
+			// a corrupted bit anywhere must cut the report at some hop, never invent other hold times for the hops before
+			use lightning::util::ser::{Readable, Writeable};
+			let mut bytes = attr.unwrap().encode(); let bit = rng.below(8 * bytes.len() as u64) as usize; flip(&mut bytes, bit);
+			if let Ok(bad) = <lightning::ln::onion_utils::AttributionData as Readable>::read(&mut &bytes[..]) {
+				let got2 = vh::decode_fulfill_attribution_data(&ctx.secp, &NullLogger, &c.path, &c.session, bad.clone());
+				if model_too { let mut f = format!("fulfildecodex {}", n); for x in &ss { f.push_str(&format!(" {}", hex(x))); } rec.case(&format!("{} {}", f, enc(&Some(bad))), &format!("holds={}", hs(&got2)), "attr:fulfil-decode-corrupt", true); }
+				if got2.len() > n.min(20) || got2[..] != holds[..got2.len()] && got2.len() == n.min(20) { rec.oracle_fail(format!("corrupted fulfil attribution data accepted in full with other hold times (route {})", r)); }
+				*rec.classes.entry("real-only:fulfil-corrupt".into()).or_insert(0) += 1;
+			}
+		}
 		// ---- failure at hop k, relayed back by hops k-1..0, decoded by the sender ----------------
 		for _ in 0..2 {
 			let k = rng.below(n as u64) as usize;
@@ -269,12 +297,17 @@ fn main() {
 			let code: u16 = if node_code { *rng.pick(&[0x2002u16, 0x6002, 0x6003, 0x2019, 0x201a]) } else { *rng.pick(&CODES) };
 			let dlen = if big_data { rng.range(1100, 9000) } else { match rng.below(4) { 0 => 0, 1 => rng.below(16), 2 => rng.below(260), _ => rng.range(250, 262) } } as usize;
 			let data = rng.bytes(dlen);
-			let (mut d, mut attr) = vh::build_failure_packet(&ss[k], code, &data, rng.below(50) as u32);
+			let mut holds: Vec<u32> = (0..=k).map(|_| match rng.below(4) { 0 => 0, 1 => rng.below(50) as u32, 2 => rng.below(100_000) as u32, _ => rng.next() as u32 }).collect();
+			let (mut d, mut attr) = vh::build_failure_packet(&ss[k], code, &data, holds[k]);
 			rec.case(&format!("failbuild {} {} {}", hex(&ss[k]), code, hex(&data)), &hex(&d), "fail:build", true);
+			let ahex = |a: &Option<lightning::ln::onion_utils::AttributionData>| { use lightning::util::ser::Writeable; a.as_ref().map(|x| hex(&x.encode())).unwrap_or("none".into()) };
+			let with_attr = !big_data && rng.chance(1, 2);
+			if with_attr { rec.case(&format!("failbuildx {} {} {} {}", hex(&ss[k]), code, hex(&data), holds[k]), &format!("{} {}", hex(&d), ahex(&attr)), "attr:build", true); }
 			if d.len() != 32 + 2 + 2 + dlen + 2 + 256usize.saturating_sub(2 + dlen) { rec.oracle_fail(format!("failure packet length {} for data length {}", d.len(), dlen)); }
 			for j in (0..k).rev() {
-				let before = d.clone();
-				let (d2, a2) = vh::relay_failure_packet(&ss[j], d, attr, rng.below(50) as u32);
+				let before = d.clone(); let abefore = ahex(&attr);
+				let (d2, a2) = vh::relay_failure_packet(&ss[j], d, attr, holds[j]);
+				if with_attr { rec.case(&format!("failwrapx {} {} {} {}", hex(&ss[j]), hex(&before), abefore, holds[j]), &format!("{} {}", hex(&d2), ahex(&a2)), "attr:wrap", true); }
 				d = d2; attr = a2;
 				rec.case(&format!("failwrap {} {}", hex(&ss[j]), hex(&before)), &hex(&d), "fail:wrap", true);
 			}
@@ -296,7 +329,24 @@ fn main() {
 				let pos = c.path.hops.iter().position(|h| h.short_channel_id == s);
 				if pos != Some(k) && pos != Some(k + 1) { rec.oracle_fail(format!("failure from hop {} of {} (code {:#x}) blamed on channel index {:?}", k, n, code, pos)); }
 			}
-			if k < 20 && !big_data && dec.hold_times.len() != k + 1 { rec.oracle_fail(format!("failure from hop {} of {}: {} hold times", k, n, dec.hold_times.len())); }
+			holds.truncate(20);
+			if !big_data && dec.hold_times != holds { rec.oracle_fail(format!("failure from hop {} of {}: hold times reported {:?}, hops set {:?}", k, n, dec.hold_times, holds)); }
+			if with_attr {
+				let hs = if dec.hold_times.is_empty() { "none".to_string() } else { dec.hold_times.iter().map(|x| x.to_string()).collect::<Vec<_>>().join(",") };
+				rec.case(&format!("faildecodex{} {} {}", &fop["faildecode".len()..], hex(&d), ahex(&attr)), &format!("{} holds={}", res, hs), "attr:decode", true);
+				// attribution data corrupted in flight: the sender still attributes the failure, hold times stop early
+				if let Some(a) = &attr {
+					use lightning::util::ser::{Readable, Writeable};
+					let mut bytes = a.encode(); let bit = rng.below(8 * bytes.len() as u64) as usize; flip(&mut bytes, bit);
+					let bad = <lightning::ln::onion_utils::AttributionData as Readable>::read(&mut &bytes[..]).ok();
+					let dec4 = vh::decode_onion_failure(&ctx.secp, &NullLogger, &c.path, &c.session, d.clone(), bad.clone());
+					let hs4 = if dec4.hold_times.is_empty() { "none".to_string() } else { dec4.hold_times.iter().map(|x| x.to_string()).collect::<Vec<_>>().join(",") };
+					let r4 = match (&dec4.onion_error_code, &dec4.onion_error_data) { (Some(cd), Some(dt)) => format!("attributed {} {} {}", k, cd, hex(dt)), _ => "unattributable".into() };
+					if dec4.onion_error_code != Some(code) { rec.oracle_fail(format!("corrupting attribution data changed the attribution of the failure (hop {} of {})", k, n)); }
+					if dec4.hold_times.len() > holds.len() || dec4.hold_times[..] != holds[..dec4.hold_times.len()] { rec.oracle_fail(format!("corrupted attribution data reported other hold times {:?} vs {:?}", dec4.hold_times, holds)); }
+					rec.case(&format!("faildecodex{} {} {}", &fop["faildecode".len()..], hex(&d), ahex(&bad)), &format!("{} holds={}", r4, hs4), "attr:decode-corrupt", true);
+				}
+			}
 			rec.case(&format!("{} {}", fop, hex(&d)), &res, &format!("fail:decode:{}", if k + 1 == n { "final" } else if k == 0 { "first" } else { "middle" }), true);
 
 			// corrupted on the way back (one bit), truncated, or decoded by a sender with other keys
@@ -326,6 +376,6 @@ fn main() {
 		}
 	}
 	rec.notes.insert("rule".into(), format!("PRNG routes of 1..N hops over {} node keys (N = longest suffix that fits {} bytes for the drawn payload sizes, also N+1), amounts in 6 magnitude classes, recipient fields (secret/metadata/custom TLVs/keysend) of varying size; per route: build (byte-exact), every hop peels, sampled single-bit corruptions, failures at random hops relayed back; every op line distinct; max hops seen {}", MAX_NODES, L, max_hops_seen));
-	rec.notes.insert("trusted".into(), "ECDH / ephemeral key blinding stay on the Rust side (shared secrets are inputs to the model); attribution-data (hold times) only checked by the impl oracle".into());
+	rec.notes.insert("trusted".into(), "ECDH / ephemeral key blinding stay on the Rust side (shared secrets are inputs to the model); attribution data (hold times): executable model compared byte for byte + impl oracle, no theorem".into());
 	rec.finish();
 }
